@@ -7,7 +7,7 @@ from .common import Case, HELD, VIOLATED, h, rng
 ID = "C09"
 LEVEL = "exploration"
 BUILDS = ["rel"]
-BUDGET_S = {"quick": 120, "thorough": 1800}
+BUDGET_S = {"quick": 600, "thorough": 1800}
 EXHAUSTIVE = {"quick": "operator x N in 0..6 x spelling x every arrangement of <=7 slots over {line, blank, spaces-only, tab-only} x content-on-tag-line",
               "thorough": "operator x N in 0..6 x spelling x every arrangement of <=8 slots over {line, blank, spaces-only, tab-only, indented line} x content-on-tag-line"}
 OPS = ["<", "<=", "==", ">=", ">"]
